@@ -155,7 +155,7 @@ def build_installation(ctx, rng, root, shape="normal"):
                 # planted entries at the front, in the middle, after the boundary and at the end
                 q = len(planted) // 4
                 ents = planted[:q] + filler[:65530] + planted[q:2 * q] + filler[65530:65540] + planted[2 * q:3 * q] + filler[65540:] + planted[3 * q:]
-            b = sq.index_file(kind, ents, pid, ndats=max(dats) + 1)
+            b = sq.index_file(kind, ents, pid, ndats=max(dats) + 1, folders=rng.random() < 0.5)
             inst.bytes += len(b)
             open(os.path.join(rd, sq.index_filename(cid, exp, chunk, inst.platform, kind)), "wb").write(b)
             inst.index.setdefault((exp, cat), {}).setdefault(chunk, {})[kind] = table
